@@ -18,6 +18,15 @@ CATALOGUE = [
     ("unused-undefined", ["«unusd1 = »nosuchsym5 + 1"], "undefined-symbol", "error", ("T",)),
     ("unused-div-zero", ["«unusd2 = 100 / zer0", "zer0 = 0"], "arithmetic-error", "error", None),
     ("bad-octal", ["{I}«.word »19"], "invalid-number", "error", ("T",)),
+    # the same faults inside '.repeat' bodies (every copy of the body is compiled from a copy of its tokens)
+    ("bad-octal-in-repeat", ["{I}«.repeat 2 { .word »18 }"], "invalid-number", "error", ("T",)),
+    ("bad-octal-in-repeat-block", ["{I}«.repeat 3 {", "\t\tmov #»9, r1", "{I}}"], "invalid-number", "error", ("T",)),
+    ("undefined-in-repeat", ["{I}«.repeat 2 { mov #»nosuchsym7, r0 }"], "undefined-symbol", "error", ("T",)),
+    ("byte-out-of-range-in-repeat", ["{I}«.repeat 2 {", "{I}\t.byte 1, »400", "{I}}"], "value-out-of-bounds", "error", ("T",)),
+    # DEL is a byte of every ASCII-compatible charset except 'bk' (0x7f is a pseudo-graphic there)
+    ("del-in-ascii", ["{I}«.ascii \"AB\x7fCD\""], "invalid-character", "error", ("S",)),
+    ("del-char-literal", ["{I}«.word »'\x7f"], "invalid-character", "error", ("T",)),
+    ("del-in-tape-name", ["{I}«make_wav \"t7.wav\", \"GAME\x7f\""], "invalid-character", "error", ("S",)),
     ("bad-octal-in-expr", ["{I}«mov #2 + »98, r1"], "invalid-number", "error", ("T",)),
     ("caret-x-without-digits", ["{I}«.word »^X"], "invalid-number", "critical", ("T",)),
     ("divide-by-zero", ["{I}«.word »5 / 0"], "arithmetic-error", "error", ("T",)),
